@@ -426,7 +426,7 @@ class ParameterSet(NamedItem):
             if pd.isna(spec["databook page"]) and not pd.isna(spec["default value"]):
                 assert spec.name not in self.pars, f"Quantity '{spec.name}' is not marked in the framework as having a databook page and it has a default value, but it has been loaded into the ParameterSet as data. If the quantity needs to be populated from the databook, either provide a databook page or remove the default value"
                 ts = dict()
-                units = framework.get_databook_units(name).strip().lower()
+                units = framework.get_databook_units(spec.name).strip().lower()
                 for pop_name in self.pop_names:
                     if data.pops[pop_name]["type"] == spec["population type"]:
                         ts[pop_name] = TimeSeries(units=units, assumption=spec["default value"])
